@@ -183,3 +183,24 @@ Theorem C10_model_eq_ref_total : forall c n root,
   exists s, extract c root = Ok s /\ Ref c [(s_of root, 0)] (view s).
 Proof. exact model_eq_ref_total. Qed.
 Print Assumptions C10_model_eq_ref_total.
+
+(* customize(target, elaborate=user, prune=..): the user's result is used unless it is None (PRUNE and
+   the empty sequence are results, not None); otherwise PRUNE iff prune.  The cases files build the
+   rows of customize()d frames with [customized], so the composition is what is compared. *)
+Theorem C10_customize_compose : forall hide prune,
+  (forall h, fst (customized hide prune (Some (ENone, h))) = (if prune then ESeq [] else ENone)) /\
+  fst (customized hide prune None) = (if prune then ESeq [] else ENone) /\
+  snd (customized hide prune None) = hide /\
+  (forall l h, customized hide prune (Some (ESeq l, h)) = (ESeq l, h)) /\
+  (forall i h, customized hide prune (Some (EOne (RItem i), h)) = (EOne (RItem i), h)) /\
+  (forall h, customized hide prune (Some (ERaise, h)) = (ERaise, h)).
+Proof. exact customized_spec. Qed.
+Print Assumptions C10_customize_compose.
+
+Theorem C10_customize_prune_exact : forall u e a cx fl ug f hide h fuel org d rest errs out t,
+  let c := mkcfg u ((f, customized hide false (Some (ESeq [], h))) :: e) a cx fl [] false all_guards ug in
+  nopy rest ->
+  run_result_is c (run fuel false c [] ((QFr f org, d) :: rest) errs out t)
+                out errs f h [] (map er_t (survivors d rest)).
+Proof. exact customized_prune_exact. Qed.
+Print Assumptions C10_customize_prune_exact.
